@@ -178,6 +178,12 @@ func (u *UnionAll) String(ctx *sql.Ctx, opts ...int) (string, error) {
 	return strings.Join(selects, " UNION ALL "), nil
 }
 
+// secondsText prints a duration in seconds exactly, to the nanosecond ("5", "0.0015"): the divisor of the rates
+func secondsText(d time.Duration) string {
+	s := fmt.Sprintf("%d.%09d", d/time.Second, d%time.Second)
+	return strings.TrimRight(strings.TrimRight(s, "0"), ".")
+}
+
 func FormatFromDate(from time.Time) string {
 	return from.UTC().Add(time.Minute * -30).Format("2006-01-02")
 }
